@@ -187,8 +187,8 @@ def deep_wit():
 def has_leaf(v):
     if isinstance(v, bool) or v is None:
         return isinstance(v, bool)          # bool is a number for _get_item_length
-    if isinstance(v, (int, float, str, bytes, type, decimal.Decimal)):
-        return True
+    if isinstance(v, (int, float, str, bytes, type, decimal.Decimal, datetime.date, datetime.time, datetime.timedelta)):
+        return True           # dates, datetimes, times and timedeltas count as numbers for _get_item_length
     if isinstance(v, dict):
         return any(has_leaf(x) for x in v.values())     # keys are not counted
     if isinstance(v, (list, tuple, set, frozenset)):
@@ -200,6 +200,8 @@ def part_deep(ctx):
     from deepdiff import DeepDiff
     g = Gen(ctx.rng, keys=['a', 'b', 'c', 'dd', 'k1'], max_depth=3, max_width=4, bytes_=True)
     g.scalars += [b'hello world', b'hello there', b'']
+    g.scalars += [datetime.date(2020, 1, 1), datetime.date(2021, 6, 15), datetime.datetime(2020, 1, 1, 2, 3, tzinfo=datetime.timezone.utc), datetime.datetime(2021, 5, 6, tzinfo=datetime.timezone.utc),
+                  datetime.time(1, 2, 3), datetime.time(4, 5, 6), datetime.timedelta(1), datetime.timedelta(seconds=90), decimal.Decimal('1.5'), decimal.Decimal('7.25')]
     n = 2500 if ctx.thorough() else 350
     for i in range(n):
         t1 = g.container()
